@@ -24,41 +24,41 @@ hmod!(pub(crate) c19s, "c19s.rs");
 hmod!(pub(crate) fault, "fault.rs");
 #[cfg(not(feature = "shuttle"))]
 hmod!(pub(crate) c01, "c01.rs");
-#[cfg(not(feature = "shuttle"))]
+#[cfg(all(not(feature = "shuttle"), feature = "descriptive-gate"))]
 hmod!(pub(crate) c02, "c02.rs");
-#[cfg(not(feature = "shuttle"))]
+#[cfg(all(not(feature = "shuttle"), feature = "descriptive-gate"))]
 hmod!(pub(crate) c03, "c03.rs");
-#[cfg(not(feature = "shuttle"))]
+#[cfg(all(not(feature = "shuttle"), feature = "descriptive-gate"))]
 hmod!(pub(crate) c04, "c04.rs");
-#[cfg(not(feature = "shuttle"))]
+#[cfg(all(not(feature = "shuttle"), feature = "descriptive-gate"))]
 hmod!(pub(crate) c05, "c05.rs");
-#[cfg(not(feature = "shuttle"))]
+#[cfg(all(not(feature = "shuttle"), feature = "descriptive-gate"))]
 hmod!(pub(crate) c06, "c06.rs");
-#[cfg(not(feature = "shuttle"))]
+#[cfg(all(not(feature = "shuttle"), feature = "descriptive-gate"))]
 hmod!(pub(crate) c07, "c07.rs");
-#[cfg(not(feature = "shuttle"))]
+#[cfg(all(not(feature = "shuttle"), feature = "descriptive-gate"))]
 hmod!(pub(crate) c07b, "c07b.rs");
-#[cfg(not(feature = "shuttle"))]
+#[cfg(all(not(feature = "shuttle"), feature = "descriptive-gate"))]
 hmod!(pub(crate) c08, "c08.rs");
-#[cfg(not(feature = "shuttle"))]
+#[cfg(all(not(feature = "shuttle"), feature = "descriptive-gate"))]
 hmod!(pub(crate) c08b, "c08b.rs");
-#[cfg(not(feature = "shuttle"))]
+#[cfg(all(not(feature = "shuttle"), feature = "descriptive-gate"))]
 hmod!(pub(crate) c09, "c09.rs");
-#[cfg(not(feature = "shuttle"))]
+#[cfg(all(not(feature = "shuttle"), feature = "descriptive-gate"))]
 hmod!(pub(crate) c09t, "c09t.rs");
-#[cfg(not(feature = "shuttle"))]
+#[cfg(all(not(feature = "shuttle"), feature = "descriptive-gate"))]
 hmod!(pub(crate) c09o, "c09o.rs");
-#[cfg(not(feature = "shuttle"))]
+#[cfg(all(not(feature = "shuttle"), feature = "descriptive-gate"))]
 hmod!(pub(crate) c10, "c10.rs");
-#[cfg(not(feature = "shuttle"))]
+#[cfg(all(not(feature = "shuttle"), feature = "descriptive-gate"))]
 hmod!(pub(crate) c13, "c13.rs");
-#[cfg(not(feature = "shuttle"))]
+#[cfg(all(not(feature = "shuttle"), feature = "descriptive-gate"))]
 hmod!(pub(crate) c15, "c15.rs");
-#[cfg(not(feature = "shuttle"))]
+#[cfg(all(not(feature = "shuttle"), feature = "descriptive-gate"))]
 hmod!(pub(crate) c17, "c17.rs");
-#[cfg(not(feature = "shuttle"))]
+#[cfg(all(not(feature = "shuttle"), feature = "descriptive-gate"))]
 hmod!(pub(crate) c19, "c19.rs");
-#[cfg(not(feature = "shuttle"))]
+#[cfg(all(not(feature = "shuttle"), feature = "descriptive-gate"))]
 hmod!(pub(crate) c19p, "c19p.rs");
 
 #[test]
